@@ -87,8 +87,7 @@ theorem C18_period_constructor (δ : Int) (imm : Bool) (pend : Int) :
     · cases hk
     · rename_i hb; exact badDelta_false (by simpa using hb)
   · intro h
-    have : badDelta δ = false := by
-      simp only [badDelta, Bool.or_eq_false_iff, bne_eq_false_iff_eq, decide_eq_false_iff_not]; omega
+    have : badDelta δ = false := badDelta_of h
     simp [this]
 
 theorem C18_periods_constructor (δs : List Int) (imm : Bool) (pend : Int) :
@@ -105,8 +104,8 @@ theorem C18_periods_constructor (δs : List Int) (imm : Bool) (pend : Int) :
     have : δs.any badDelta = false := by
       apply List.any_eq_false.mpr
       intro δ hδ
-      have := h δ hδ
-      simp only [badDelta, Bool.or_eq_true, bne_iff_ne, decide_eq_true_eq, not_or, not_not, not_le]; omega
+      have := badDelta_of (h δ hδ)
+      simp [this]
     simp [this]
 
 /-! ### the main statement -/
